@@ -64,6 +64,8 @@ CHECKS["C13"] = {
          "functions": ["AABB::intersects", "AABB::join", "<[T] as Bounded>::aabb"]},
         {"name": "c13::geo::aabb_join_bounds", "bound": "0..3 boxes, every finite f32 corner", "kani_args": NOOVF, "cbmc_args": FS,
          "functions": ["AABB::join", "<[T] as Bounded>::aabb"]},
+        {"name": "c13::geo::wallgeom_aabb", "bound": "quadrilateral with integer vertices in [-4,4]^2 (any order), translation in [-3,3]^3, tilt 0 / azimuth 0", "kani_args": NOOVF, "cbmc_args": FS, "timeout_quick": 900,
+         "functions": ["<WallGeom as Bounded>::aabb", "WallGeom::to_global_coords_matrix"]},
         {"name": "c13::geo::pip_exact_tri", "bound": "triangles (both windings) with integer vertices in [-4,4]^2, points at half-integers", "kani_args": NOOVF, "cbmc_args": FS,
          "timeout_quick": 900, "functions": ["ray::point_in_poly", "Ray::intersects_with_data"]},
         {"name": "c13::geo::ray_plane", "bound": "rectangle w,h in 1..4, translation in [-3,3]^3, both vertex orders, origin in [-6,6]^3, direction in {-2..2}^2 x {-2,-1,0,1,2}", "kani_args": NOOVF, "cbmc_args": FS,
@@ -271,7 +273,7 @@ CHECKS["C03"] = {
     "title": "conversion: azimuth convention and outline mirroring (partial)",
     "outside": ["every position (products of rotation matrices: sin/cos are not interpreted by CBMC)", "wall_geometry as a whole (string-keyed lookups)", "window placement, shades, invariance of areas/volumes/U/K/n50 under rotation"],
     "harnesses": [
-        {"name": "c03::azimuth_convention", "witness": True, "bound": "every quarter-degree azimuth in [-360,720]", "kani_args": NOOVF, "unwindset": [[r"c03::azimuth_convention", 5]], "functions": ["convert::orientation_bdl_to_52016", "convert::normalize_azimuth", "utils::normalize"]},
+        {"name": "c03::azimuth_convention", "witness": True, "bound": "every quarter-degree azimuth in [-720,1080]", "kani_args": NOOVF, "unwindset": [[r"c03::azimuth_convention", 7]], "functions": ["convert::orientation_bdl_to_52016", "convert::normalize_azimuth", "utils::normalize"]},
         {"name": "c03::azimuth_shift", "bound": "every pair (azimuth, delta) on the quarter-degree grid in [0,360)^2", "kani_args": NOOVF, "unwindset": [[r"c03::azimuth_shift", 5]], "functions": ["convert::orientation_bdl_to_52016"]},
         {"name": "c03::mirror_y_outline", "bound": "outline of 1..4 vertices on integer grid [-4,4]^2", "kani_args": NOOVF, "cbmc_args": FS, "functions": ["hulc::bdl::Polygon::mirror_y"]},
     ],
